@@ -26,6 +26,9 @@
       endpoint that reached the closed state (the acknowledgement completing the exchange: there
       is no TIME-WAIT state, a closed endpoint ignores every later segment) and then its peer fails
       explicitly at the retransmission limit (error state, exactly one reset).
+      A second domain (end of the file) repeats the enumeration for a connection whose receiver's
+      window closes during the transfer (64-byte receive buffer; 9 632 runs): same outcomes, plus the
+      known zero-window stall when a window update is lost.
       Refuted: "every single drop is recovered to closed/closed" (witness: the final ACK), and -
       the KNOWN finding C02-zero-window-stall on two endpoints - "a lost window update is recovered"
       (witness: a 64-byte receive buffer, 80 bytes written, the window-reopening ACK dropped: both
@@ -390,3 +393,91 @@ Proof.
   vm_compute in E. injection E as <- <-.
   vm_compute. repeat split; try reflexivity; discriminate.
 Qed.
+
+(* ---------------------------------------------------------------- the closing-window domain *)
+
+(* The same enumeration for a connection whose receiver's window CLOSES during the transfer (B's
+   receive buffer is 64 bytes) - the drop sets now also hit window updates.
+     domain: the connection [zw_cfg] x 4 close orders x w1 in {64 = exactly the window, 65, 80,
+             100 in two chunks} x w2 in {0, 5} (32 scenarios) x every drop set of at most two frames
+             among the first 12 of either side (301)                                  (9 632 pumped runs)
+   Outcome for every element: the pump stops within the budget and EITHER everything is delivered
+   with end of stream both ways and both endpoints end closed without a reset (or, the last frame of
+   an endpoint that closed being lost, its peer fails explicitly) OR the run ends in the KNOWN
+   zero-window stall: an endpoint stays connected with data queued behind a zero window, nothing in
+   flight and no timer running (there is no persist timer; 381 of the 9 632 runs). *)
+Definition zw_pair : tcp * tcp := match zw_cfg with Some p => p | None => (fresh 0 0, fresh 0 0) end.
+
+Definition zw_scens : list scen :=
+  flat_map (fun order =>
+    flat_map (fun w1c => map (fun w2 => scenario order (fst w1c) (snd w1c) w2) [0; 5])
+             [(64, 1%nat); (65, 1%nat); (80, 1%nat); (100, 2%nat)])
+    [0; 1; 2; 3].
+
+Definition stalled (p : pst) : bool := zw_stalled (sA (p_sys p)) || zw_stalled (sB (p_sys p)).
+
+Definition verdict_zw (p : pst) (ds : dropset) : bool :=
+  p_done p &&
+  ((delivered p && (closed_closed p || (lost_final p ds && explicit_failure p))) || stalled p).
+
+Definition check_zw (sc : scen) (ds : dropset) : bool :=
+  verdict_zw (pump_run budget orc (fst zw_pair) (snd zw_pair) sc ds) ds.
+
+Lemma check_zw_unfold sc ds :
+  check_zw sc ds = verdict_zw (pump_run budget orc (fst zw_pair) (snd zw_pair) sc ds) ds.
+Proof. reflexivity. Qed.
+
+Lemma forallb2 {B C} (lb : list B) (lc : list C) (chk : B -> C -> bool) :
+  forallb (fun b => forallb (chk b) lc) lb = true -> forall b c, In b lb -> In c lc -> chk b c = true.
+Proof.
+  intros H b c Hb Hc.
+  rewrite forallb_forall in H. specialize (H b Hb). cbv beta in H.
+  rewrite forallb_forall in H. exact (H c Hc).
+Qed.
+
+Lemma check_zw_all_true : forallb (fun b => forallb (check_zw b) (drop_sets K)) zw_scens = true.
+Proof. vm_cast_no_check (eq_refl true). Qed.
+
+Lemma verdict_zw_spec (p : pst) (ds : dropset) :
+  verdict_zw p ds = true ->
+  p_done p = true /\
+  ((a_rd (p_appB p) = a_wr (p_appA p) /\ a_rd (p_appA p) = a_wr (p_appB p) /\
+    a_eof (p_appA p) = true /\ a_eof (p_appB p) = true /\
+    ((estate (sA (p_sys p)) = stClosed /\ estate (sB (p_sys p)) = stClosed /\
+      no_rst (oA (p_sys p)) = true /\ no_rst (oB (p_sys p)) = true)
+     \/ (lost_final p ds = true /\ explicit_failure p = true)))
+   \/ (zw_stalled (sA (p_sys p)) = true \/ zw_stalled (sB (p_sys p)) = true)).
+Proof.
+  unfold verdict_zw. intros H. apply andb_prop in H. destruct H as [D1 H]. split; [exact D1|].
+  apply orb_prop in H. destruct H as [H|H].
+  - left. apply andb_prop in H. destruct H as [D2 O].
+    destruct (delivered_spec p D2) as (R1 & R2 & E1 & E2 & _).
+    split; [exact R1|]. split; [exact R2|]. split; [exact E1|]. split; [exact E2|].
+    apply orb_prop in O. destruct O as [O|O].
+    + left. unfold closed_closed in O.
+      apply andb_prop in O. destruct O as [O L2]. apply andb_prop in O. destruct O as [O L1].
+      apply andb_prop in O. destruct O as [O N2]. apply andb_prop in O. destruct O as [O N1].
+      apply andb_prop in O. destruct O as [C1 C2].
+      apply Z.eqb_eq in C1. apply Z.eqb_eq in C2. repeat split; assumption.
+    + right. apply andb_prop in O. destruct O as [O1 O2]. split; assumption.
+  - right. unfold stalled in H. apply orb_prop in H. exact H.
+Qed.
+
+Theorem closing_window_drops_outcome_bounded :
+  forall sc ds, In sc zw_scens -> In ds (drop_sets K) ->
+  let p := pump_run budget orc (fst zw_pair) (snd zw_pair) sc ds in
+  p_done p = true /\
+  ((a_rd (p_appB p) = a_wr (p_appA p) /\ a_rd (p_appA p) = a_wr (p_appB p) /\
+    a_eof (p_appA p) = true /\ a_eof (p_appB p) = true /\
+    ((estate (sA (p_sys p)) = stClosed /\ estate (sB (p_sys p)) = stClosed /\
+      no_rst (oA (p_sys p)) = true /\ no_rst (oB (p_sys p)) = true)
+     \/ (lost_final p ds = true /\ explicit_failure p = true)))
+   \/ (zw_stalled (sA (p_sys p)) = true \/ zw_stalled (sB (p_sys p)) = true)).
+Proof.
+  intros sc ds Hs Hd.
+  pose proof (forallb2 zw_scens (drop_sets K) check_zw check_zw_all_true sc ds Hs Hd) as H.
+  rewrite check_zw_unfold in H. cbv zeta. exact (verdict_zw_spec _ _ H).
+Qed.
+
+Example zw_domain_size : length zw_scens = 32%nat /\ zw_cfg <> None.
+Proof. split; [reflexivity|vm_compute; discriminate]. Qed.
